@@ -76,13 +76,13 @@ def bound_text(tier, seed):
     if tier == "quick":
         return ("order 1-2: all 20 coefficient vectors x 16 (mean, ini) x all series of length 0..4 (781); order 3: all 64 vectors x 16 x "
                 "all series of length 0..3; order 4..10: all 1603 vectors with <= 2 non-zero lags x 2 (mean, ini) x length-12 series within "
-                "1 deviation of a zero and of a ramp base (98); long series length 2000 for every order (seed %d); 66 rejected argument sets x 3 series lengths, scalar-parameter form; "
+                "1 deviation of a zero and of a ramp base (98); long series length 2000 for every order (seed %d); 96 rejected argument sets x 3 series lengths, scalar-parameter form; "
                 "size ladder: orders 1,2,5,10 x 2 coefficient vectors x 2 (mean, ini) x 3 structured series x 29 lengths 7..1025 around powers of two (and 100, 500, 501, 1000, 1001); "
                 "11 layout variants of the arguments on every ladder tuple and on the first tuple of every unit" % seed)
     return ("order 1-3: all 84 coefficient vectors x 16 (mean, ini) x [all series of length 0..4, length 5 and 6 within 2 deviations of two "
             "bases]; order 4..10: all 1603 vectors with <= 2 non-zero lags x 6 (mean, ini) x [all series of length 0..2, length 6 within 1 "
             "deviation, length 12 within 2 deviations of the zero base and 1 of the ramp base, length 23 within 1 deviation of both]; long "
-            "series length 2000 and 5000 for every order (seed %d); 66 rejected argument sets x 3 series lengths, scalar-parameter form; "
+            "series length 2000 and 5000 for every order (seed %d); 96 rejected argument sets x 3 series lengths, scalar-parameter form; "
             "size ladder: orders 1,2,5,10 x 2 coefficient vectors x 2 (mean, ini) x 3 structured series x 36 lengths 7..4097 around powers of two and 10001; "
             "11 layout variants of the arguments on every ladder tuple and on the first tuple of every unit" % seed)
 
@@ -665,6 +665,12 @@ def reject_cases():
     for fn in ("armodel_sim", "armodel_residual"):
         for n in (0, 11, 12):
             out.append({"kind": "reject", "fn": fn, "what": "order=%d" % n, "phi": [0.25] * n, "mean": 0.0, "ini": 0.0})
+        # orders above 10 whose vector is padded with exact zeros (the order is the length of the vector)
+        for n in (11, 12, 15):
+            for what, phi in (("zeros", [0.0] * n), ("lag1-then-zeros", [0.7] + [0.0] * (n - 1)),
+                              ("ten-lags-then-zeros", [0.05] * 10 + [0.0] * (n - 10)), ("zeros-then-last-lag", [0.0] * (n - 1) + [0.25]),
+                              ("negative-zeros", [0.25] * 10 + [-0.0] * (n - 10))):
+                out.append({"kind": "reject", "fn": fn, "what": "order=%d:%s" % (n, what), "phi": phi, "mean": 0.0, "ini": 0.0})
         for p in range(1, 11):
             for pos in sorted(set([0, p // 2, p - 1])):
                 phi = [0.25] * p
